@@ -5,21 +5,62 @@
    shown unreachable here (C14_parse_total covers OutOfFuel as an escape). *)
 From Coq Require Import ZArith List Bool.
 From V Require Import base.Cal gen.ParseTables parse.Lex parse.Prim parse.Ymd parse.Parse parse.Build
-                      parse.BuildThm parse.LexThm parse.TotalThm.
+                      parse.BuildThm parse.LexThm parse.TotalThm
+                      parse.ParseSpec parse.ZoneThm parse.Local parse.LocalThm parse.Full.
 Import ListNotations.
 Open Scope Z_scope.
 
-(* for ALL code-point lists and all well-formed options the outcome is a datetime, ParserError or
+(* ALPHABET.  The model's character classes are Python's on Sigma = ASCII + the non-ASCII code points (70) of
+   gen/ParseTables.tbl_chars (Lex.in_sigma); any other code point is lexed as "other", unlike Python.  The
+   statements below hold of the model for every list of integers, but they describe dateutil only for texts
+   over Sigma, so the headline theorems carry `over_sigma s`.  Real Unicode coverage, proved and tested
+   alike, is those 70 code points (+ an implementation-only outcome-class test outside the table).
+
+   for all texts over Sigma and all well-formed options the outcome is a datetime, ParserError or
    OverflowError -- no IndexError, ValueError, AssertionError, TypeError, UnboundLocalError or
    OutOfFuel escapes -- EXCEPT the defect class of open finding F-C14-bigmonth: the month handed to
    calendar.monthrange has more digits than sys.get_int_max_str_digits(), IllegalMonthError cannot
    be formatted and a plain ValueError (ValueErrorNoStr in the model) leaves parse().
-   wf: tzinfos values are int | TZ string | tzinfo | None, parserinfo._year >= 50 *)
+   wf: tzinfos values are int | VALID TZ string | tzinfo | None (DESIGN's wf_opts), parserinfo._year >= 50;
+   this is `parse` = the runs in which tz.tzlocal answers; all option combinations: C14_parse_full_total *)
 Theorem C14_parse_total : forall o s,
+  over_sigma s -> wf_tzinfos (o_tzinfos o) = true -> 50 <= o_cur_year o ->
+  match parse o s with OutEscape e => e = ValueErrorNoStr | _ => True end.
+Proof. exact parse_total_sigma_lemma. Qed.
+Print Assumptions C14_parse_total.
+
+(* the same without the alphabet hypothesis (a statement about the model only, see ALPHABET) *)
+Theorem C14_parse_total_model : forall o s,
   wf_tzinfos (o_tzinfos o) = true -> 50 <= o_cur_year o ->
   match parse o s with OutEscape e => e = ValueErrorNoStr | _ => True end.
 Proof. exact parse_total_lemma. Qed.
-Print Assumptions C14_parse_total.
+Print Assumptions C14_parse_total_model.
+
+(* EVERY option combination (tzinfos values of any type, TZ strings tz.tzstr rejects, failing tz.tzlocal):
+   parse_full (parse/Full.v).  Besides ParserError / OverflowError exactly three exception classes leave
+   parse(), each with its exact trigger (escape_class): F-C14-bigmonth (plain ValueError, above),
+   F-C14-tzinfos-type (TypeError: the tzinfos value the text resolves to is not int/str/tzinfo/None, although the
+   docstring promises ParserError "if the provided tzinfo is not in a valid format"), F-C14-tzstr (plain ValueError:
+   tz.tzstr rejects the TZ string).  Option restrictions that remain (NOT modelled, stated here): `default` is a
+   naive datetime.datetime (a date or None-with-clock is outside), the text is str / decodable bytes / text
+   stream (undecodable bytes: F-C14-undecodable, implementation-only), user tzinfo objects do not raise. *)
+
+Theorem C14_parse_full_total : forall o lz bad s,
+  over_sigma s -> 50 <= o_cur_year o ->
+  match parse_full o lz bad s with OutEscape e => escape_class o bad s e | _ => True end.
+Proof. exact parse_full_total_sigma_lemma. Qed.
+Print Assumptions C14_parse_full_total.
+
+Theorem C14_parse_full_wf : forall o lz s, parse_full o lz [] s = parse_lz o lz s.
+Proof. exact parse_full_wf. Qed.
+Print Assumptions C14_parse_full_wf.
+
+Theorem C14_parse_full_escapes_refuted :
+  parse_full (fx_opts TVBad) (mkLocalz 0 false) [] fx_text = OutEscape TypeError /\
+  parse_full (fx_opts (TVStr 100)) (mkLocalz 0 false) [100] fx_text = OutEscape ValueError /\
+  parse_full (fx_opts (TVStr 100)) (mkLocalz 0 false) [] fx_text = OutOk (mkDt 2003 9 25 10 0 0 0) (ZStr 100) 0 false [].
+Proof. exact parse_full_escapes_refuted_lemma. Qed.
+Print Assumptions C14_parse_full_escapes_refuted.
 
 (* the guard is exactly the defect class: an escape happens only through _build_naive's
    unprintable IllegalMonthError *)
